@@ -165,6 +165,10 @@ def stepTok (d : DState) (tok : String) : DState × String :=
     match num 2 with
     | some n => ({ d with w := (w.step c (.store e (.remove n))).1 }, "ok")
     | none => (d, "bad-case")
+  | some "rx", some e => guard e fun _ =>
+    match num 2 with
+    | some p => ({ d with w := (w.step c (.store e (.remove (5 + p)))).1 }, "ok")
+    | none => (d, "bad-case")
   | some "cl", some e => guard e fun _ => ({ d with w := (w.step c (.store e .clear)).1 }, "ok")
   | some "sl", some e => guard e fun _ =>
     match num 2 with
